@@ -23,6 +23,9 @@ type Loop struct {
 	Inductions map[*ssa.Phi]*InductionVariable
 	TripCount  SCEV
 	SCEVCache  map[ssa.Value]SCEV
+
+	// scevSizes memoises expanded-tree sizes of symbolic expressions (see scevNodes).
+	scevSizes map[SCEV]int
 }
 
 func (l *Loop) String() string {
